@@ -3,7 +3,9 @@ package checks
 import (
 	"bufio"
 	"encoding/json"
+	"errors"
 	"fmt"
+	"io"
 	"net"
 	"os"
 	"os/exec"
@@ -12,8 +14,14 @@ import (
 	"runtime/pprof"
 	"strconv"
 	"strings"
+	"sync"
+	"sync/atomic"
 	"syscall"
 	"time"
+
+	"github.com/ProtonMail/gluon/imap"
+	"github.com/ProtonMail/gluon/store"
+	"github.com/ProtonMail/gluon/verifhooks/fp"
 
 	"verifharness/ev"
 	"verifharness/srv"
@@ -30,6 +38,9 @@ type srvChildOpts struct {
 	Users      []srv.UserSpec `json:"users,omitempty"`
 	JailMillis int            `json:"jail_ms,omitempty"`
 	Recorder   bool           `json:"recorder,omitempty"` // record panics instead of dying
+	StoreFault bool           `json:"store_fault,omitempty"` // wrap the store so that calls can be made to fail
+	StartFP    string         `json:"start_fp,omitempty"`    // "mode name k": a failpoint armed before the server starts
+	Nonce      string         `json:"nonce,omitempty"`       // part of the ids the harness remote hands out (default: the pid)
 }
 
 type srvStats struct {
@@ -51,9 +62,28 @@ func srvChildMain(args []string) int {
 		return 2
 	}
 
-	opts := srv.Options{Dir: o.Dir, Users: o.Users, JailTime: time.Duration(o.JailMillis) * time.Millisecond}
+	if o.Nonce == "" {
+		o.Nonce = fmt.Sprintf("p%d", os.Getpid())
+	}
+
+	opts := srv.Options{Dir: o.Dir, Users: o.Users, JailTime: time.Duration(o.JailMillis) * time.Millisecond, RemoteNonce: o.Nonce}
 	if !o.Recorder {
 		opts.PanicHandler = dyingPanicHandler{}
+	}
+
+	faults := &storeFaults{}
+	if o.StoreFault {
+		opts.StoreBuilder = faultStoreBuilder{inner: &store.OnDiskStoreBuilder{}, f: faults}
+	}
+
+	if f := strings.Fields(o.StartFP); len(f) == 3 {
+		k, _ := strconv.Atoi(f[2])
+
+		if strings.HasPrefix(f[1], "store.") {
+			faults.arm(strings.TrimPrefix(f[1], "store."), k, f[0])
+		} else {
+			armFailpoint(f[0], f[1], k)
+		}
 	}
 
 	s, err := srv.Start(opts)
@@ -81,6 +111,66 @@ func srvChildMain(args []string) int {
 			line, err := rd.ReadString('\n')
 			if err != nil {
 				break
+			}
+
+			if f := strings.Fields(line); len(f) > 0 {
+				switch f[0] {
+				case "fp": // fp <crash|err> <name> <k>
+					if len(f) == 4 {
+						k, _ := strconv.Atoi(f[3])
+						armFailpoint(f[1], f[2], k)
+						fmt.Fprintln(c, "armed")
+					} else {
+						fp.Reset()
+						fmt.Fprintln(c, "cleared")
+					}
+
+					continue
+				case "hits":
+					b, _ := json.Marshal(fp.AllHits())
+					fmt.Fprintln(c, string(b))
+
+					continue
+				case "storefail": // storefail <set|get|delete> <k> <crash|err>
+					if len(f) == 4 {
+						k, _ := strconv.Atoi(f[2])
+						faults.arm(f[1], k, f[3])
+					}
+
+					fmt.Fprintln(c, "armed")
+
+					continue
+				case "storecalls":
+					b, _ := json.Marshal(faults.counts())
+					fmt.Fprintln(c, string(b))
+
+					continue
+				case "deliver": // deliver <mailbox> <marker>: the remote announces a new message
+					if len(f) == 3 {
+						fmt.Fprintln(c, childDeliver(s, f[1], f[2]))
+					}
+
+					continue
+				case "deliver2": // deliver2 <mailbox> <new marker> <known remote id> <its marker>: one new and one known message
+					if len(f) == 5 {
+						fmt.Fprintln(c, childDeliver2(s, f[1], f[2], f[3], f[4]))
+					}
+
+					continue
+				case "remotedelete-id": // remotedelete-id <remote message id>
+					if len(f) == 2 {
+						ack := s.Users[0].Conn.Apply(imap.NewMessagesDeleted(imap.MessageID(f[1])), 60*time.Second)
+						fmt.Fprintf(c, "acked=%v err=%v\n", ack.Acked, ack.Err)
+					}
+
+					continue
+				case "remotedelete": // remotedelete <marker>
+					if len(f) == 2 {
+						fmt.Fprintln(c, childRemoteDelete(s, f[1]))
+					}
+
+					continue
+				}
 			}
 
 			switch strings.TrimSpace(line) {
@@ -117,6 +207,207 @@ func srvChildMain(args []string) int {
 
 		c.Close()
 	}
+}
+
+// armFailpoint: the k-th hit of the named failpoint from now on kills the process (as a power cut of the process
+// would) or makes the step fail.
+func armFailpoint(mode, name string, k int) {
+	var n int64
+
+	fp.Set(name, func(string) error {
+		if atomic.AddInt64(&n, 1) != int64(k) {
+			return nil
+		}
+
+		if mode == "crash" {
+			_ = syscall.Kill(os.Getpid(), syscall.SIGKILL)
+			select {}
+		}
+
+		return errors.New("verif: injected failure at " + name)
+	})
+}
+
+func childDeliver(s *srv.Server, box, marker string) string {
+	conn := s.Users[0].Conn
+
+	id, ok := conn.MailboxID(strings.Split(box, "/")...)
+	if !ok {
+		// After a restart the harness remote is empty; the remote ids of the base mailboxes are known.
+		known := map[string]string{"INBOX": "u1rBinbox", "Work": "u1rBmb1", "Other": "u1rBmb2"}
+
+		rid, has := known[box]
+		if !has {
+			return "no such mailbox"
+		}
+
+		id = imap.MailboxID(rid)
+		conn.RemoteMailbox(id, []string{box})
+	}
+
+	mc, err := conn.RemoteAddMessage(simpleMessage(marker, nil), imap.NewFlagSet(imap.FlagFlagged), time.Unix(1136214245, 0).UTC(), id)
+	if err != nil {
+		return "error " + err.Error()
+	}
+
+	ack := conn.Apply(imap.NewMessagesCreated(false, mc), 60*time.Second)
+
+	return fmt.Sprintf("acked=%v err=%v", ack.Acked, ack.Err)
+}
+
+func childMailboxID(s *srv.Server, box string) (imap.MailboxID, bool) {
+	conn := s.Users[0].Conn
+
+	if id, ok := conn.MailboxID(strings.Split(box, "/")...); ok {
+		return id, true
+	}
+
+	known := map[string]string{"INBOX": "u1rBinbox", "Work": "u1rBmb1", "Other": "u1rBmb2"}
+
+	rid, has := known[box]
+	if !has {
+		return "", false
+	}
+
+	conn.RemoteMailbox(imap.MailboxID(rid), []string{box})
+
+	return imap.MailboxID(rid), true
+}
+
+func childDeliver2(s *srv.Server, box, marker, knownID, knownMarker string) string {
+	conn := s.Users[0].Conn
+
+	id, ok := childMailboxID(s, box)
+	if !ok {
+		return "no such mailbox"
+	}
+
+	mc, err := conn.RemoteAddMessage(simpleMessage(marker, nil), imap.NewFlagSet(), time.Unix(1136214245, 0).UTC(), id)
+	if err != nil {
+		return "error " + err.Error()
+	}
+
+	lit := simpleMessage(knownMarker, nil)
+	parsed, _ := imap.NewParsedMessage(lit)
+	known := &imap.MessageCreated{Message: imap.Message{ID: imap.MessageID(knownID), Flags: imap.NewFlagSet(), Date: time.Unix(1136214245, 0).UTC()}, Literal: lit, MailboxIDs: []imap.MailboxID{id}, ParsedMessage: parsed}
+
+	ack := conn.Apply(imap.NewMessagesCreated(false, known, mc), 60*time.Second)
+
+	return fmt.Sprintf("acked=%v err=%v", ack.Acked, ack.Err)
+}
+
+func childRemoteDelete(s *srv.Server, marker string) string {
+	conn := s.Users[0].Conn
+
+	mi, ok := conn.FindMessage(markerHeader + ": " + marker + "\r\n")
+	if !ok {
+		return "no such message"
+	}
+
+	conn.RemoteDeleteMessage(mi.ID)
+	ack := conn.Apply(imap.NewMessagesDeleted(mi.ID), 60*time.Second)
+
+	return fmt.Sprintf("acked=%v err=%v", ack.Acked, ack.Err)
+}
+
+// ---- a store whose calls can be made to fail ---------------------------------------------------
+
+type storeFaults struct {
+	mu    sync.Mutex
+	n     map[string]int
+	armed map[string][2]string // op -> {k, mode}
+}
+
+func (f *storeFaults) arm(op string, k int, mode string) {
+	f.mu.Lock()
+	defer f.mu.Unlock()
+
+	if f.armed == nil {
+		f.armed = map[string][2]string{}
+	}
+
+	f.armed[op] = [2]string{strconv.Itoa(f.n[op] + k), mode}
+}
+
+func (f *storeFaults) counts() map[string]int {
+	f.mu.Lock()
+	defer f.mu.Unlock()
+
+	out := map[string]int{}
+	for k, v := range f.n {
+		out[k] = v
+	}
+
+	return out
+}
+
+func (f *storeFaults) check(op string) error {
+	f.mu.Lock()
+
+	if f.n == nil {
+		f.n = map[string]int{}
+	}
+
+	f.n[op]++
+	a, ok := f.armed[op]
+	hit := ok && a[0] == strconv.Itoa(f.n[op])
+	f.mu.Unlock()
+
+	if !hit {
+		return nil
+	}
+
+	if a[1] == "crash" {
+		_ = syscall.Kill(os.Getpid(), syscall.SIGKILL)
+		select {}
+	}
+
+	return errors.New("verif: injected store failure in " + op)
+}
+
+type faultStoreBuilder struct {
+	inner store.Builder
+	f     *storeFaults
+}
+
+func (b faultStoreBuilder) New(dir, userID string, passphrase []byte) (store.Store, error) {
+	st, err := b.inner.New(dir, userID, passphrase)
+	if err != nil {
+		return nil, err
+	}
+
+	return &faultStore{Store: st, f: b.f}, nil
+}
+
+func (b faultStoreBuilder) Delete(dir, userID string) error { return b.inner.Delete(dir, userID) }
+
+type faultStore struct {
+	store.Store
+	f *storeFaults
+}
+
+func (s *faultStore) Get(id imap.InternalMessageID) ([]byte, error) {
+	if err := s.f.check("get"); err != nil {
+		return nil, err
+	}
+
+	return s.Store.Get(id)
+}
+
+func (s *faultStore) Set(id imap.InternalMessageID, r io.Reader) error {
+	if err := s.f.check("set"); err != nil {
+		return err
+	}
+
+	return s.Store.Set(id, r)
+}
+
+func (s *faultStore) Delete(ids ...imap.InternalMessageID) error {
+	if err := s.f.check("delete"); err != nil {
+		return err
+	}
+
+	return s.Store.Delete(ids...)
 }
 
 // dyingPanicHandler behaves like gluon's default (no handler): the panic takes the process down.
